@@ -9,6 +9,8 @@ NAME_FAMILIES = {
     # listing order, sort order and (very likely) hash order all disagree
     "disorder": ["b", "A", "c10", "c9", "Z", "a", "_x", "B2", "aa"],
     "odd": ["Ann Lee", "O'Neil", "x,y", "Ünal", 'q"t', " lead", "Z z", "d.e", "K-9"],
+    # names that are substrings / prefixes of one another (a membership test on a *string* instead of a list shows here)
+    "nested": ["Jo", "Joan", "Ann", "Anne", "1", "10", "Joanna", "A", "AA"],
 }
 
 STV_FAMILY = ("STV", "IRV", "SequentialRCV")
@@ -42,7 +44,7 @@ def gen_weight(rng, fam):
 
 
 def gen_names(rng, n):
-    fam = wchoice(rng, [("plain", 6), ("disorder", 3), ("odd", 1)])
+    fam = wchoice(rng, [("plain", 6), ("disorder", 3), ("odd", 1), ("nested", 1.5)])
     names = list(NAME_FAMILIES[fam][:n])
     if rng.random() < 0.5:
         rng.shuffle(names)
